@@ -26,6 +26,8 @@ PROFILE = P.profile(p_cutoff=0.4, entry_w={"tree": 8, "hms": 1, "minimize": 1.5}
 
 def gen(seed, tier):
     pl = P.gen_plan(seed, PROFILE, PROP)
+    if tier == "thorough" and seed % 2 == 0:
+        pl["c02_mid_consults"] = True  # histories re-digested and re-evaluated at every consult, not only at boundaries
     from .c12 import crossover_only
 
     crossover_only(pl, seed)
